@@ -36,7 +36,7 @@ func TestVerifC18Signals(t *testing.T) {
 		return
 	}
 	L := ev.Begin("C18", "c18-signals", "model_checking",
-		"explicit enumeration of every signal history over {SIGHUP, SIGTERM, SIGINT} up to length 2 (thorough 3), each replayed against the real main() in a child process (static registry, real listeners, proxy.shutdownwait=6s) with one request in flight that the upstream answers only after the whole history was delivered; barriers are causal (child log lines 'Caught SIG..', handler-entered, listener-refuses-connect). oracle: SIGHUP before the first exit signal leaves the proxy serving; after the first SIGTERM/SIGINT new connections are refused, the in-flight request completes normally whatever further signals arrive during the drain, and the process ends by itself with status 0 within the wait. non-trivial = histories with a signal after the shutdown began")
+		"explicit enumeration of every signal history over {SIGHUP, SIGTERM, SIGINT} up to length 2 (thorough 3), each replayed against the real main() in a child process (static registry, real listeners, proxy.shutdownwait=6s) with one request in flight that the upstream answers only after the whole history was delivered; barriers are causal (child log lines 'Caught SIG..', handler-entered, listener-refuses-connect). oracle: SIGHUP before the first exit signal leaves the proxy serving; after the first SIGTERM/SIGINT new connections are refused, the in-flight request completes normally whatever further signals arrive during the drain, and the process ends by itself with status 0 within the wait; plus one run with proxy.deregistergraceperiod=3s, wait 4s and a request that ends 5.5s after the signal (the wait is owed after the grace period). non-trivial = histories with a signal after the shutdown began")
 	sigs := []syscall.Signal{syscall.SIGHUP, syscall.SIGTERM, syscall.SIGINT}
 	maxLen := ev.EnvInt("C18_SIGNALS", 2)
 	if ev.Thorough() {
@@ -95,6 +95,22 @@ func TestVerifC18Signals(t *testing.T) {
 		}()
 	}
 	wg.Wait()
+	// the wait starts when the listeners stop accepting, not when the signal arrives: with a deregistration
+	// grace period of 3s and a wait of 4s a request that ends 5.5s after the signal is still inside the wait
+	{
+		sig, d, st := c18RunSignalsOpt([]syscall.Signal{syscall.SIGTERM}, "4s", "3s", 5500*time.Millisecond-3*time.Second)
+		L.Case()
+		L.NontrivialKey("grace-period")
+		transitions++
+		for _, s := range st {
+			states[s] = true
+		}
+		L.Outcome(fmt.Sprint(d["outcome"]))
+		L.Sample(d)
+		if sig != "" {
+			L.Violation(sig+"/with-deregister-grace-period", d)
+		}
+	}
 	L.AddStates(int64(len(states)))
 	L.AddTransitions(transitions)
 	L.AddTraces(int64(len(hists)))
@@ -117,11 +133,17 @@ func c18SigName(s syscall.Signal) string {
 
 // c18RunSignals replays one signal history against a fresh fabio process.
 func c18RunSignals(h []syscall.Signal) (sig string, d map[string]interface{}, states []string) {
+	return c18RunSignalsOpt(h, "6s", "0s", 150*time.Millisecond)
+}
+
+// wait / grace: proxy.shutdownwait and proxy.deregistergraceperiod of the child;
+// hold: how long after the last signal the in-flight request is released
+func c18RunSignalsOpt(h []syscall.Signal, wait, grace string, hold time.Duration) (sig string, d map[string]interface{}, states []string) {
 	var names []string
 	for _, s := range h {
 		names = append(names, c18SigName(s))
 	}
-	d = map[string]interface{}{"signals": names, "shutdown_wait": "6s"}
+	d = map[string]interface{}{"signals": names, "shutdown_wait": wait, "deregister_grace_period": grace, "request_released_after": hold.String()}
 	entered := make(chan struct{}, 16)
 	release := make(chan struct{})
 	up := httptest.NewServer(http.HandlerFunc(func(w http.ResponseWriter, r *http.Request) {
@@ -148,7 +170,7 @@ func c18RunSignals(h []syscall.Signal) (sig string, d map[string]interface{}, st
 	}
 	proxyAddr, uiAddr := free(), free()
 	args, _ := json.Marshal([]string{"fabio", "-insecure", "-log.level", "INFO", "-registry.backend", "static",
-		"-registry.static.routes", "route add svc / " + up.URL + "/\n", "-proxy.addr", proxyAddr, "-ui.addr", uiAddr, "-proxy.shutdownwait", "6s"})
+		"-registry.static.routes", "route add svc / " + up.URL + "/\n", "-proxy.addr", proxyAddr, "-ui.addr", uiAddr, "-proxy.shutdownwait", wait, "-proxy.deregistergraceperiod", grace})
 	cmd := exec.Command(os.Args[0], "-test.run", "^TestVerifC18Signals$", "-test.timeout", "120s")
 	cmd.Env = append([]string{"VERIF_C18_CHILD=" + string(args)}, c18EnvWithout("VERIF_OUT", "VERIF_C18_CHILD")...)
 	stderr, err := cmd.StderrPipe()
@@ -300,7 +322,7 @@ func c18RunSignals(h []syscall.Signal) (sig string, d map[string]interface{}, st
 		}
 		return "", d, states
 	}
-	time.Sleep(150 * time.Millisecond)
+	time.Sleep(hold)
 	released = true
 	close(release)
 	select {
@@ -320,7 +342,7 @@ func c18RunSignals(h []syscall.Signal) (sig string, d map[string]interface{}, st
 			d["outcome"], d["exit"] = "abnormal exit", err.Error()
 			return "process-did-not-end-its-shutdown-normally", d, states
 		}
-	case <-time.After(6*time.Second + 15*time.Second):
+	case <-time.After(30 * time.Second):
 		d["outcome"] = "process still running after the wait"
 		return "process-did-not-exit-within-the-wait", d, states
 	}
